@@ -91,6 +91,13 @@ class SimQueue:
         self.mgr = mgr if mgr >= 0 else -1 - qid      # queues made without a manager never share a connection
         self.name = f'q{qid}'
         self.items: deque = deque()
+        # A queue made by a context (multiprocessing.Queue) instead of a manager is a pipe shared by all
+        # processes plus a write lock: a message larger than the pipe buffer reaches the pipe in pieces
+        # while the reader drains it; a writer killed in between leaves a truncated message behind (the
+        # reader then blocks for ever inside recv, whatever its timeout) and keeps the write lock.
+        self.pipe = False
+        self.partial_writer = None
+        self.poisoned = False
 
     def __reduce__(self):
         return (_lookup_queue, (self.simos.os_id, self.qid))
@@ -128,6 +135,14 @@ class SimQueue:
         data = pickle.dumps(obj)       # pickling errors surface in the caller
         if self.maxsize and len(self.items) >= self.maxsize and block and not (timeout is not None and timeout <= 0):
             sim.block('q.put:' + self.name, lambda: len(self.items) < self.maxsize, timeout)
+        if self.pipe:
+            if self.poisoned:
+                sim.block('q.wlock-held-by-dead-process:' + self.name, lambda: False, None)
+            if len(data) > PIPE_BUFFER:
+                self.partial_writer = sim.me()
+                sim.ev('qfeed', self.name, self.partial_writer.name if self.partial_writer else None, len(data))
+                sim.yp('q.feed', self.name)      # header and first part are in the pipe
+                self.partial_writer = None
 
         def serve():
             if self.maxsize and len(self.items) >= self.maxsize:
@@ -152,10 +167,16 @@ class SimQueue:
     def get(self, block=True, timeout=None):
         sim = live(self.sim)
         sim.yp('q.get', self.name)
-        if not self.items and block and not (timeout is not None and timeout <= 0):
+        if not self.items and not (self.pipe and self.poisoned) and block and not (timeout is not None and timeout <= 0):
             # (an interrupt while the caller is blocked here is raised out of block(); the request is
             # treated as withdrawn - labtech only ever blocks on a queue from helper threads)
             sim.block('q.get:' + self.name, lambda: bool(self.items), timeout)
+
+        if self.pipe and self.poisoned and not self.items:
+            # poll() says readable, recv_bytes() waits for the rest of a message that will never come
+            sim.ev('qrecv-truncated', self.name)
+            sim.fired('reader-stuck-on-truncated-message')
+            sim.block('q.recv-truncated:' + self.name, lambda: False, None)
 
         def serve():
             if not self.items:
@@ -179,6 +200,15 @@ class SimQueue:
         sim = live(self.sim)
         sim.yp('q.qsize', self.name)
         return self._exchange(sim, 'qsize', lambda: ('ret', len(self.items)))
+
+    def __getattr__(self, name):
+        # (only reached for attributes the stand-in does not have)
+        if name.startswith('__') and name.endswith('__'):
+            raise AttributeError(name)
+        raise HarnessError(f'{type(self).__name__}.{name} is not modelled by the simulator')
+
+
+PIPE_BUFFER = 65536
 
 
 class SimManager:
@@ -299,6 +329,7 @@ class SimProcess:
         self.pid: Optional[int] = None
         self.daemon = daemon
         self.ent: Optional[Entity] = None
+        self._sentinel = None
 
     # -- parent side
     def start(self):
@@ -387,6 +418,44 @@ class SimProcess:
             return None
         return self.ent.exit_code
 
+    @property
+    def sentinel(self):
+        """A real descriptor, as the real attribute is (so that the real multiprocessing.connection.wait
+        and selectors work on it): the read end of a pipe whose write end is closed once the simulated
+        process is dead and has left no descendant behind that inherited it."""
+        if self.ent is None:
+            raise ValueError('process not started')
+        if self._sentinel is None:
+            r, w = _real_os.pipe()
+            self._sentinel = [r, w]
+            self.simos.sentinels.append(self)
+            self.refresh_sentinel()
+        return self._sentinel[0]
+
+    def refresh_sentinel(self):
+        st = self._sentinel
+        if st is not None and st[1] is not None and self.ent is not None and not self.ent.alive \
+                and not self.ent.tags.get('descendants'):
+            _real_os.close(st[1])
+            st[1] = None
+
+    def close_sentinel(self):
+        st = self._sentinel
+        if st is not None:
+            for fd in st:
+                if fd is not None:
+                    try:
+                        _real_os.close(fd)
+                    except OSError:
+                        pass
+            self._sentinel = None
+
+    def __getattr__(self, name):
+        # (only reached for attributes the stand-in does not have)
+        if name.startswith('__') and name.endswith('__'):
+            raise AttributeError(name)
+        raise HarnessError(f'{type(self).__name__}.{name} is not modelled by the simulator')
+
     # -- child side (runs in the entity's thread)
     def _bootstrap(self, ent: Entity, args, kwargs):
         sim = self.sim
@@ -414,6 +483,13 @@ class SimProcess:
                     raise
                 except BaseException:
                     pass
+            # BaseProcess._bootstrap: finally: threading._shutdown() waits for the non-daemon threads the task
+            # left behind (an uploader thread of a tracking library, say): the process lingers, its task is over
+            linger = simos.linger.get(ent.node) if ent.node is not None else None
+            if linger:
+                sim.ev('linger', ent.name, ent.node, linger)
+                sim.fired('process-lingers')
+                sim.block('linger', lambda: False, linger)
             # BaseProcess._bootstrap: finally: util._flush_std_streams()
             ent.set_phase('exit')
             try:
@@ -458,7 +534,7 @@ class SimContext:
         return SimManager(self.simos)
 
     def Queue(self, maxsize=0):
-        return self.simos.new_queue(-1, maxsize)
+        return self.simos.new_queue(-1, maxsize, pipe=True)
 
     def get_start_method(self, allow_none=False):
         return self._name
@@ -501,7 +577,7 @@ class MPShim:
         return SimProcess(self._simos, 'default', *a, **kw)
 
     def Queue(self, maxsize=0):
-        return self._simos.new_queue(-1, maxsize)
+        return self._simos.new_queue(-1, maxsize, pipe=True)
 
     def get_context(self, method=None):
         return SimContext(self._simos, method or self._simos.default_method)
@@ -802,6 +878,9 @@ class SimOS:
         self.spawn_boot_steps = spawn_boot_steps
         self.kill_flush = kill_flush
         self.queues: list[SimQueue] = []
+        self.sentinels: list = []             # started processes whose sentinel descriptor was asked for
+        sim.kill_callbacks.append(self._on_kill)
+        sim.exit_callbacks.append(self._on_exit)
         self.proc_count = 0
         self.ticks = 0
         self.coarse_clock = False
@@ -811,6 +890,7 @@ class SimOS:
         self.main_blocked = False             # SIGINT blocked in the calling thread (pthread_sigmask)
         self.main_pending_sigint = False
         self.on_main_unblocked = None
+        self.linger: dict = {}                # node -> seconds its process stays alive after the task is over
         self.tracker_running = False          # multiprocessing's resource tracker (started by the first spawn)
         self.on_main_rpc = None               # called between request and reply of a proxy call of the calling thread
         self.main_rpcs = 0
@@ -824,6 +904,20 @@ class SimOS:
         self.brief_fn = None
 
     # -- helpers used by the shims
+    def _on_exit(self, ent) -> None:
+        for p in self.sentinels:
+            p.refresh_sentinel()
+
+    def _on_kill(self, ent) -> None:
+        for p in self.sentinels:
+            p.refresh_sentinel()
+        for q in self.queues:
+            if q.partial_writer is ent:
+                q.partial_writer = None
+                q.poisoned = True
+                self.sim.ev('qpoisoned', q.name, ent.name)
+                self.sim.fired('writer-killed-mid-message')
+
     def ensure_tracker_running(self) -> None:
         """multiprocessing.resource_tracker.ensure_running(): the first time (per interpreter) it spawns the
         tracker process with SIGINT and SIGTERM blocked and afterwards *unblocks* them in the calling
@@ -842,8 +936,9 @@ class SimOS:
         self.managers += 1
         return self.managers - 1
 
-    def new_queue(self, mgr: int = -1, maxsize: int = 0) -> SimQueue:
+    def new_queue(self, mgr: int = -1, maxsize: int = 0, pipe: bool = False) -> SimQueue:
         q = SimQueue(self, len(self.queues), mgr, maxsize)
+        q.pipe = pipe
         self.queues.append(q)
         return q
 
@@ -930,4 +1025,7 @@ class SimOS:
         if self.fork_memory is not None:
             self.fork_memory.simos = None
         self.installed = False
+        for p in self.sentinels:
+            p.close_sentinel()
+        self.sentinels = []
         _SIMOS.pop(self.os_id, None)
